@@ -1,5 +1,124 @@
+/-
+  C07 (what the model can carry) — numbers read from a patch are bounded so that the arithmetic done with them stays inside
+  int64, indices stay inside their vectors, and every exception ends in exit status 2.
+-/
+import PatchModel.Model.Driver
 import PatchModel.Spec.Script
+import PatchModel.Lemmas.Bounds
+import PatchModel.Props.C02Apply
 namespace PatchModel.C07
-/-- placeholder until the checked-arithmetic / cost theorems are in (see DESIGN.md section 5/C07) -/
-theorem placeholder : True := trivial
+open PatchModel
+
+/-- representable as `int64_t` (`LineNumber`) -/
+def inI64 (x : Int) : Prop := -9223372036854775808 ≤ x ∧ x ≤ 9223372036854775807
+
+/-- the cap on line numbers read from a patch: 2^61 - 1 -/
+def cap : Int := i64Max / 4
+
+theorem cap_value : cap = 2305843009213693951 := Bounds.i64Max_div4
+
+/-- every number `consume_line_number` accepts is within [0, cap] -/
+theorem consumeLineNumber_bounded (r : Bytes) (cur : Int) (h : (consumeLineNumber r cur).1 = true) :
+    0 ≤ (consumeLineNumber r cur).2.1 ∧ (consumeLineNumber r cur).2.1 ≤ cap :=
+  Bounds.consumeLineNumber_small r cur h
+
+/-- a unified range line that parses has all four numbers within [0, cap] -/
+theorem unified_range_bounded (h0 : Hunk) (l : Bytes) (h : (parseUnifiedRange h0 l).1 = true) :
+    let r := (parseUnifiedRange h0 l).2
+    0 ≤ r.old.start ∧ r.old.start ≤ cap ∧ 0 ≤ r.old.count ∧ r.old.count ≤ cap ∧
+    0 ≤ r.new.start ∧ r.new.start ≤ cap ∧ 0 ≤ r.new.count ∧ r.new.count ≤ cap := by
+  obtain ⟨a, b, c, d⟩ := Bounds.parseUnifiedRange_small h0 l h
+  exact ⟨a.1, a.2, b.1, b.2, c.1, c.2, d.1, d.2⟩
+
+/-- a normal range line that parses: starts within [0, cap], counts (computed as end - start + 1) within [-cap, cap + 1] -/
+theorem normal_range_bounded (h0 : Hunk) (l : Bytes) (h : (parseNormalRange h0 l).1 = true) :
+    let r := (parseNormalRange h0 l).2
+    0 ≤ r.old.start ∧ r.old.start ≤ cap ∧ 0 ≤ r.old.count ∧ r.old.count ≤ cap + 1 ∧
+    0 ≤ r.new.start ∧ r.new.start ≤ cap ∧ -cap - 1 ≤ r.new.count ∧ r.new.count ≤ cap + 1 := by
+  obtain ⟨a, b, c, d, e, f⟩ := Bounds.parseNormalRange_bounds h0 l h
+  exact ⟨a.1, a.2, b, c, d.1, d.2, e, f⟩
+
+/-- a context range that parses: both numbers within [0, cap] -/
+theorem context_range_bounded (s e : Int) (t : Bytes) (h : (parseContextRange s e t).1 = true) :
+    0 ≤ (parseContextRange s e t).2.1 ∧ (parseContextRange s e t).2.1 ≤ cap ∧
+    0 ≤ (parseContextRange s e t).2.2 ∧ (parseContextRange s e t).2.2 ≤ cap := by
+  obtain ⟨a, b⟩ := Bounds.parseContextRange_small s e t h
+  exact ⟨a.1, a.2, b.1, b.2⟩
+
+/-- `expected_line_number` and the first guess `expected - 1 + offset` do not overflow for bounded inputs -/
+theorem guess_in_range (h : Hunk) (offset : Int) (hs : 0 ≤ h.old.start ∧ h.old.start ≤ cap)
+    (ho : -(2 * cap + 2) ≤ offset ∧ offset ≤ 2 * cap + 2) :
+    inI64 (expectedLine h) ∧ inI64 (expectedLine h - 1) ∧ inI64 (expectedLine h - 1 + offset) := by
+  rw [cap_value] at hs ho
+  unfold inI64 expectedLine
+  split <;> omega
+
+/-- whatever `locate_hunk` returns lies inside the file, and its offset is `line - guess` (no other arithmetic) -/
+theorem locate_in_file (file : List Line) (h : Hunk) (iw : Bool) (offset maxFuzz : Int) (minLine : Nat) (loc : Location)
+    (hloc : locateHunk file h iw offset maxFuzz minLine = some loc) :
+    0 ≤ loc.line ∧ loc.line ≤ (file.length : Int) ∧ 0 ≤ loc.fuzz ∧
+    loc.offset = loc.line - (expectedLine h - 1 + offset) := by
+  by_cases hc : h.old.count = 0
+  · obtain ⟨h1, h2, h3, h4, h5⟩ := C02.locate_insertion file h iw offset maxFuzz minLine loc hloc hc
+    refine ⟨by omega, h5, by omega, by omega⟩
+  · obtain ⟨p, f, e, _, h2, _⟩ := locateHunk_some file h iw offset maxFuzz minLine loc hc hloc
+    subst e
+    refine ⟨by simp only; omega, by simp only; omega, by simp only; omega, rfl⟩
+
+/-- invariant of the hunk loop: the accumulated offset error after applying a hunk is `line - expected + 1`, hence bounded by the
+    stated line and the file length whatever happened before — no accumulation over hunks -/
+theorem offErr_after_apply (file : List Line) (o : ApplyOpts) (p : Patch) (s s' : AState) (num : Nat) (h : Hunk) (loc : Location)
+    (hloc : locateHunk file h o.ignoreWhitespace s.offErr o.maxFuzz s.cursor = some loc) (hskip : s.skip = false)
+    (hf : finishHunk file o p s num h (some loc) = .ok s') :
+    s'.offErr = loc.line - expectedLine h + 1 := by
+  have hoff := (locate_in_file file h o.ignoreWhitespace s.offErr o.maxFuzz s.cursor loc hloc).2.2.2
+  rcases Apply.finishHunk_ok hf with ⟨l, _, _, _, hl, _, _, _, _, he, _⟩ | ⟨hn, _⟩
+  · cases hl
+    rw [he, hoff]; omega
+  · rcases hn with hn | hn
+    · rw [hskip] at hn; cases hn
+    · cases hn
+
+/-- the shift of reject line numbers is the net growth of the hunks applied so far: for well-formed hunks it is bounded by the number of
+    hunk lines seen, not by any number written in the patch -/
+theorem offNew_step (file : List Line) (o : ApplyOpts) (p : Patch) (s s' : AState) (num : Nat) (h : Hunk) (loc : Option Location)
+    (hw : h.WF) (hf : finishHunk file o p s num h loc = .ok s') :
+    (s'.offNew - s.offNew).natAbs ≤ h.lines.length := by
+  have h1 := Bounds.oldOf_length_le h.lines
+  have h2 := Bounds.newOf_length_le h.lines
+  obtain ⟨_, ho, hn⟩ := hw
+  rcases Bounds.finishHunk_offNew hf with e | e <;> rw [e] <;> omega
+
+/-- `lines.at(i)` never throws for well-formed hunks: `apply_patch` has no `out_of_range` outcome -/
+theorem no_out_of_range (file : List Line) (p0 : Patch) (o : ApplyOpts) (tty : Option (List Bool))
+    (hwf : ∀ h ∈ p0.hunks, h.WF) (hD : o.define = []) :
+    applyPatch file p0 o tty ≠ .error .outOfRange := by
+  intro he
+  have := (Bounds.applyPatch_error (C02.locatorSound file _ _) hwf hD he).1
+  cases this
+
+/-- every exception reaches `main`'s handler: whatever is thrown anywhere, the exit status is 2 (and never anything but 0, 1, 2) -/
+theorem exit_status (o : Options) (s0 : DState) :
+    (runPatch o s0).1 = 0 ∨ (runPatch o s0).1 = 1 ∨ (runPatch o s0).1 = 2 := by
+  unfold runPatch
+  split
+  · exact Or.inl rfl
+  · split
+    · split
+      · exact Or.inr (Or.inl rfl)
+      · exact Or.inl rfl
+    · exact Or.inr (Or.inr rfl)
+
 end PatchModel.C07
+
+#print axioms PatchModel.C07.cap_value
+#print axioms PatchModel.C07.consumeLineNumber_bounded
+#print axioms PatchModel.C07.unified_range_bounded
+#print axioms PatchModel.C07.normal_range_bounded
+#print axioms PatchModel.C07.context_range_bounded
+#print axioms PatchModel.C07.guess_in_range
+#print axioms PatchModel.C07.locate_in_file
+#print axioms PatchModel.C07.offErr_after_apply
+#print axioms PatchModel.C07.offNew_step
+#print axioms PatchModel.C07.no_out_of_range
+#print axioms PatchModel.C07.exit_status
